@@ -218,3 +218,9 @@ func (s *AtomVisitor) EnterOC_FunctionInvocation(ctx *parser.OC_FunctionInvocati
 func (s *AtomVisitor) ExitOC_FunctionInvocation(ctx *parser.OC_FunctionInvocationContext) {
 	s.Atom = s.ctx.Exit().(*FunctionInvocationVisitor).FunctionInvocation
 }
+
+// A shortest path pattern is modelled as a pattern part of a MATCH clause only; in expression position the
+// query model has no node for it.
+func (s *AtomVisitor) EnterOC_ShortestPathPattern(ctx *parser.OC_ShortestPathPatternContext) {
+	s.newUnsupportedRuleError(ctx)
+}
